@@ -307,6 +307,31 @@ def check(repo: Repo, run: Run) -> None:
         total += analyse_record(ctx, run, d.rec, e.module.name, e.func_name, set(), seen)
         if d.str_rec is not None:
             total += analyse_record(ctx, run, d.str_rec, e.module.name, f"{d.cls.name}.__str__", set(), seen)
+    # ---- the line builders of the facade: every emitted trace is also rendered as a line, whose process column is looked
+    # up in the shared thread / process tables - a thread or a pid the dump never named must give an empty or fallback
+    # column, not a KeyError that ends the listing
+    from .. import guards
+    pk = repo.cls("pykdebugparser", "PyKdebugParser")
+    SELF_ = sym.param("self")
+    shared = {T("attr", (SELF_, "threads_pids")), T("attr", (SELF_, "pids_names"))}
+    n_fac = 0
+    for name, fn in pk.methods.items():
+        if name == "__init__":
+            continue
+        rec = ctx.interp.run(pk.module, fn, self_cls=pk)
+        for p in rec.pops:
+            if p.kind != "sub" or not ({p.base, p.path} & shared) or not p.func.endswith("." + name):
+                continue
+            n_fac += 1
+            why = guards.member_guarded(p, rec)
+            tbl = sym.pretty(p.base if p.base in shared else p.path)
+            run.ob("R6", pk.module.name, f"PyKdebugParser.{name}", f"lookup: {tbl}[{sym.pretty(p.key)[:50]}]", why is not None,
+                   "" if why is not None else
+                   f"{name} indexes {tbl} with {sym.pretty(p.key)[:60]} without a membership test or .get: a thread / process the "
+                   f"dump never named raises KeyError and ends the formatted listing",
+                   facts={"discharged_by": why}, line=p.lineno, nontrivial=False,
+                   witness="a thread announced by TRACE_DATA_NEWTHREAD whose process is never named")
+    run.analysed["facade_table_lookups"] = n_fac
     run.analysed.update({"decoders": n_dec, "tracked_partial_operations": total})
     run.floor("R1", "decoders analysed", n_dec, 440)
     run.floor("R1", "tracked partial operations", len(seen), 6)
